@@ -274,6 +274,8 @@ class Env:
         check_dims(node, v)
         node["value"] = v
         node["has_value"] = True
+        if v is not None:
+            node["had_real_value"] = True
         node["modified"] = True
 
     def directive(self, st):
@@ -550,8 +552,12 @@ class Env:
                 host["has_value"] = True
                 host["modified"] = True
                 made.append(path)
+                # which node a property line after such an import belongs to is not settled
+                self.last_new = None
                 continue
             self.need_unit(rnode["unit"])    # a custom unit of the source, unknown here
+            if rnode["condition"] is not None and "cmpnode" in json.dumps(rnode["condition"]):
+                raise Unspecified("import of a node whose condition refers to another node")
             if rnode["value"] is None and rnode["dims"] is not None:
                 raise Unspecified("import of an array node without value")
             node = copy.deepcopy(rnode)
@@ -606,8 +612,14 @@ class Env:
         n = 0
         for node in self.nodes.values():
             if node["declared"] and node["value"] is None:
+                if node["has_value"] and node.get("had_real_value"):
+                    # assigned more than once, none last: "the last assigned value ...
+                    # including none" - the node has had its value, none wins
+                    r = check_constraints(self, node, margin=1e-3)
+                    n += r
+                    continue
                 if node["has_value"]:
-                    # 'none' was assigned explicitly: whether that counts as a value of a
+                    # 'none' is all it was ever assigned: whether that counts as a value of a
                     # declared node is not settled by the statements
                     raise Unspecified("declared node explicitly set to none")
                 raise Abort("declared node left without value", "C14", node["path"])
@@ -644,7 +656,7 @@ def in_options(node, value, tol=1e-9):
 
 
 def cond_literals(e):
-    if e[0] == "cmpref":
+    if e[0] in ("cmpref", "cmpnode"):
         return []
     if e[0] == "cmp":
         return [(e[2], e[3])]
@@ -663,6 +675,17 @@ def eval_condition(env, node, value, margin=0.0):
     def ev(e):
         if e[0] == "cmpref":
             return None
+        if e[0] == "cmpnode":
+            # the bound is another node's value at the time of validation
+            other = env.nodes.get(e[2])
+            if other is None or other["value"] is None or isinstance(other["value"], (list, str, bool)) \
+                    or isinstance(value, (str, bool)) or other["type"] != node["type"] \
+                    or (other["unit"] is None) != (node["unit"] is None):
+                return None
+            if other["unit"] is not None and \
+                    env.units.dims(other["unit"]) != env.units.dims(node["unit"]):
+                return None
+            e = ["cmp", e[1], other["value"], other["unit"]]
         if e[0] == "cmp":
             _, op, lit, unit = e
             if isinstance(value, str) or isinstance(value, bool):
@@ -795,7 +818,7 @@ def dims_text(dims):
 
 
 def cond_text(e):
-    if e[0] == "cmpref":
+    if e[0] in ("cmpref", "cmpnode"):
         return "{?} " + e[1] + " {?" + e[2] + "}"
     if e[0] == "cmp":
         _, op, lit, unit = e
